@@ -114,6 +114,12 @@ type outcome struct {
 // behind its handshake (100 everywhere except in part of the genuine cases).
 var serverFirst = 100
 
+// serverWaits: the server application says nothing until it has heard from the
+// client (the usual order under Tor): nothing follows the server's handshake
+// flight on the wire, so however that flight is cut up, its last piece has to
+// be enough for the client to complete.
+var serverWaits = false
+
 // hourRollover: the client builds its handshake in the last half second of an
 // hour (of the virtual clock both ends share) and the network takes a second
 // to deliver it, so the server reads it in the next hour.
@@ -174,12 +180,20 @@ func mitmCase(c *mon.Case, r *mon.Run, sf base.ServerFactory, b o4.Bridge, t tam
 		if err != nil {
 			return
 		}
-		// server application: send serverFirst stream bytes at once, echo nothing; count what arrives
-		sc.Write(st.Bytes(0, serverFirst))
+		// server application: send serverFirst stream bytes at once (or, if it
+		// waits, once the client's 50 bytes are there), echo nothing; count what arrives
+		waits := serverWaits
+		if !waits {
+			sc.Write(st.Bytes(0, serverFirst))
+		}
 		buf := make([]byte, 4096)
 		for {
 			n, err := sc.Read(buf)
 			out.serverGot += int64(n)
+			if waits && out.serverGot >= 50 {
+				waits = false
+				sc.Write(st.Bytes(0, serverFirst))
+			}
 			if err != nil {
 				return
 			}
@@ -502,10 +516,12 @@ func TestCheck(t *testing.T) {
 			if sf == nil {
 				return
 			}
-			for i := 0; i < r.Pick(3*len(chunkings), 12*len(chunkings)); i++ {
+			for i := 0; i < r.Pick(4*len(chunkings), 12*len(chunkings)); i++ {
 				// the server speaks first: 100 bytes, or a bulk of 8..20 KiB right behind
-				// its handshake (under every chunking of what the client reads)
-				serverFirst = []int{100, 8192, 20000}[(i/len(chunkings))%3]
+				// its handshake (under every chunking of what the client reads) — or
+				// the client does and nothing follows the server's handshake flight
+				serverFirst = []int{100, 8192, 20000, 100}[(i/len(chunkings))%4]
+				serverWaits = (i/len(chunkings))%4 == 3
 				// every fifth: the hour changes between the client's hello and the server's reading it
 				hourRollover = i%5 == 4
 				out, _ := mitmCase(c, r, sf, b, tamper{kind: "none"}, i, r.Sub("gen", bi, i), b)
@@ -515,6 +531,10 @@ func TestCheck(t *testing.T) {
 				hourRollover = false
 				first := serverFirst
 				serverFirst = 100
+				if serverWaits {
+					r.Count("genuine_client_speaks_first", 1)
+				}
+				serverWaits = false
 				r.Count("evaluations", 1)
 				r.Count(fmt.Sprintf("genuine_server_first_%d_bytes", first), 1)
 				if out.dialErr != nil || !out.pingPong || out.serverGot != 50 {
